@@ -665,7 +665,7 @@ def run(tier, seed, rep):
     state.pristine()
     env_classes()
     quick = tier == 'quick'
-    depth = 5 if quick else 7
+    depth = 5 if quick else 6       # depth 7 is about 7 million states (the space grows by a factor of 8.5 per level): hours
     info = core.bfs(expand_chunk, depth, rep, chunk=32, state_cap=(400000 if quick else 6000000))
     # (b)
     pdepth = 3 if quick else 4
